@@ -304,6 +304,42 @@ def proof_error(pr):
         return "forbidden vernacular: %s" % pr["forbidden"][:3]
     return log[-400:]
 
+def definitions_conform(c):
+    """Every shipped definition file (data/regimes, data/addons, data/catalogues) must be accepted by the published schema of its
+    own `$schema` (a non-Go consumer reads these files with the schemas in hand). Independent reading: python jsonschema."""
+    import glob as _g
+    import subprocess as _sp
+    pyjs = os.path.join(VERIF, "tools", "lib", "c11_pyjs.py")
+    files, lines = [], []
+    for kind in ("regimes", "addons", "catalogues"):
+        for f in sorted(_g.glob(os.path.join(REPO, "data", kind, "*.json"))):
+            try:
+                d = json.load(open(f))
+            except Exception as e:
+                c.report("shipped definition file %s is not JSON: %s" % (os.path.relpath(f, REPO), e), {"file": os.path.relpath(f, REPO)})
+                continue
+            if isinstance(d, dict) and isinstance(d.get("$schema"), str):
+                files.append(os.path.relpath(f, REPO))
+                lines.append(json.dumps({"id": d["$schema"], "doc": d}))
+    if not lines:
+        c.report("no shipped definition files found", {"machinery": "data/"}, no_input=True)
+        return
+    p = _sp.run(["python3-vt", pyjs, REPO, "validate"], input="\n".join(lines) + "\n", stdout=_sp.PIPE, stderr=_sp.PIPE, text=True, timeout=600)
+    outs = [l for l in p.stdout.splitlines() if l.startswith("{")]
+    if p.returncode != 0 or len(outs) != len(lines):
+        c.report("definition files could not be validated (python jsonschema): %s" % p.stderr[-300:], {"machinery": "tools/lib/c11_pyjs.py"}, no_input=True)
+        return
+    shown = 0
+    for f, o in zip(files, outs):
+        r = json.loads(o)
+        c.count("definition-conforms-to-its-schema", 1, f)
+        if r.get("v") == "invalid" and shown < 4:
+            shown += 1
+            c.report("shipped definition file %s is refused by the published schema of its own $schema: %s" % (f, json.dumps(r.get("errors"))[:300]),
+                     {"file": f, "errors": r.get("errors"), "clause": "non-Go consumers see the same definitions the library enforces (the file must be readable with the published schema)",
+                      "rerun": "python3-vt tools/lib/c11_pyjs.py <repo> validate  < {id: $schema, doc: file}"})
+
+
 def run(c):
     if not std_builds(c, cli=True):
         return
@@ -317,6 +353,7 @@ def run(c):
         c.report("extraction/oracle build failed: " + out[-800:], {"machinery": "oracle"}, no_input=True)
         return
     pub = load_published(REPO)
+    definitions_conform(c)
     code = load_in_code()
     currencies = set()
     for f in glob.glob(os.path.join(REPO, "data", "currency", "*.json")):
